@@ -120,7 +120,7 @@ def monitor(case, out):
             vs.append('step %d: malformed observation' % i)
             break
         where = 'step %d (%s)' % (i, kind.decode())
-        if kind == b'disk':
+        if kind in (b'disk', b'heal'):
             continue
         try:
             t = parse_stats(ob[-1])
@@ -133,10 +133,10 @@ def monitor(case, out):
                 vs.append('%s: increments made before the ZeroStats survived it' % where)
             dirty = True
             continue
-        if dirty and kind not in (b'zero', b'restart'):
+        if dirty and kind not in (b'zero', b'restart', b'restart_broken'):
             continue
         vs += law_violations(t, where)
-        if kind in (b'zero', b'restart'):
+        if kind in (b'zero', b'restart', b'restart_broken'):
             if any(t[k] != 0 for k in KEYS):
                 vs.append('%s: statistics not zero' % where)
             prev = dict(zero)
